@@ -902,6 +902,12 @@ func (vm *VirtualMachine) callFunction(
 	// Set up deferred function calls
 	callFrame := vm.activeFrame
 	defer func() {
+		if len(callFrame.defers) == 0 {
+			return
+		}
+		// Deferred calls run on top of the frame that deferred them, so that
+		// a deferred call that defers again counts towards the frame limit
+		vm.fp = baseFP + 1
 		for _, partial := range callFrame.defers {
 			if err := vm.callObject(ctx, partial.Function(), partial.Args()); err != nil {
 				result = nil
